@@ -335,6 +335,19 @@ def removeCall (serial : Nat) : List Call → List Call
 def helloCall (l : List Call) : Option Call :=
   l.find? (fun c => c.kind = .hello)
 
+/-- methodReturnReceived / errorReceived up to the firing: `timeout.cancel()`, `del self._pendingCalls[serial]`. -/
+def takeCall (c : Call) (s : St) : St :=
+  let s := if c.timed then { s with timers := s.timers.filter (· ≠ c.serial), log := s.log ++ [.timerCancelled c.serial] } else s
+  { s with pending := removeCall c.serial s.pending }
+
+/-- The firing of the call's Deferred; an Introspect reply makes the proxy. -/
+def completeCall (v : Variant) (c : Call) (ok : Bool) (s : St) : St :=
+  match c.kind, ok with
+  | .introspect key, true => makeProxy v key false (s.emit (.callOk c.serial))
+  | .introspect _, false => s.emit (.callErr c.serial .introspectionFailed)
+  | _, true => s.emit (.callOk c.serial)
+  | _, false => s.emit (.callErr c.serial .remote)
+
 inductive Ev
   -- environment: the reactor and the peer
   | attemptFails | attemptConnects
@@ -395,15 +408,7 @@ def step (v : Variant) (s : St) : Ev → St
     if s.phase = .ready then
       match findCall serial s.pending with
       | none => s
-      | some c =>
-        -- methodReturnReceived / errorReceived: cancel the timer, delete the entry, fire
-        let s := if c.timed then { s with timers := s.timers.filter (· ≠ serial), log := s.log ++ [.timerCancelled serial] } else s
-        let s := { s with pending := removeCall serial s.pending }
-        match c.kind, ok with
-        | .introspect key, true => makeProxy v key false (s.emit (.callOk serial))
-        | .introspect _, false => s.emit (.callErr serial .introspectionFailed)
-        | _, true => s.emit (.callOk serial)
-        | _, false => s.emit (.callErr serial .remote)
+      | some c => completeCall v c ok (takeCall c s)
     else s
   | .expire serial =>
     -- _onMethodTimeout(serial, d): `del self._pendingCalls[serial]` (KeyError if absent), errback TimeOut
@@ -447,5 +452,31 @@ def step (v : Variant) (s : St) : Ev → St
 def run (v : Variant) (s : St) : List Ev → St
   | [] => s
   | e :: es => run v (step v s e) es
+
+/-! ## Observations used by the property statements -/
+
+/-- The connection attempt is over (one way or the other). -/
+def Phase.concluded : Phase → Bool
+  | .connecting | .authenticating | .helloSent => false
+  | _ => true
+
+/-- Event `e`, arriving in state `s`, ends the connection attempt: a Hello reply or error, a transport
+close in any phase, an authentication failure, or the failure of the last address of the list. -/
+def concludes (s : St) : Ev → Bool
+  | .helloReply | .helloError => s.phase = .helloSent
+  | .close => s.transportOpen
+  | .authFailed => s.phase = .authenticating
+  | .attemptFails => s.phase = .connecting && s.remaining.isEmpty
+  | _ => false
+
+/-- The connection attempts made so far, in order. -/
+def attempts (s : St) : List Endpoint :=
+  s.log.filterMap fun | .attempt ep => some ep | _ => none
+
+/-- `f` is a firing of the Deferred of the call with this serial. -/
+def Fx.completes (serial : Nat) : Fx → Bool
+  | .callOk n => n = serial
+  | .callErr n _ => n = serial
+  | _ => false
 
 end Txdbus.Client.Lifecycle
